@@ -582,7 +582,8 @@ func allPerms(k int) [][]int {
 
 const c15Rule = "three generated families over Ed25519 and P-256 with ElGamal pairs (r_i G, r_i H + M_i) under generated (G, H=hG) and distinct random plaintext points. (pair) k in 2..12 (thorough 40), permutation drawn by the generator and passed to PairShuffle.Prove, betas random or edge: honest proof verifies; one negative from {X component of a slot re-randomised alone, slot duplicated, X components of two slots swapped, slot replaced by the homomorphic sum of two, slot doubled, slot replaced by another input, G<->H, other H, other G, proof bit flip, truncation, other input, proof for another honest output, byte splice of two honest proofs} must be rejected. " +
 	"(forged) a malicious prover written in the harness against the verifier's equations (33)-(35): for an output Xbar=(M^T)^-1 (X+tG), Ybar likewise with H, for M a sum / scalar-multiple / shear / random invertible non-permutation matrix, it commits Gamma, W, Lambda, answers rho with sigma=w+M rho, D=gamma M rho G, tau=tau0+sum rho_j t_j and appends an honest simple shuffle on unrelated vectors; the verifier must reject. " +
-	"(others) shuffle.Shuffle, SequencesShuffle with NQ in 1..4 (tampered and misaligned outputs), Biffle (not a re-encryption, output swapped under the same proof, duplicate, torn pair, bit flip), SimpleShuffle alone (honest and with one broken element); plus the exhaustive enumeration of all permutations for small k. non-trivial = every case except honest identity permutations without an applicable negative; distinct = distinct rendered case"
+	"(others) shuffle.Shuffle, SequencesShuffle with NQ in 1..4 (tampered and misaligned outputs), Biffle (not a re-encryption, output swapped under the same proof, duplicate, torn pair, bit flip), SimpleShuffle alone (honest and with one broken element); plus the exhaustive enumeration of all permutations for small k. non-trivial = every case except honest identity permutations without an applicable negative; distinct = distinct rendered case" +
+	" Added after the sensitivity rounds: one cheating prover per verifier equation (R/S binding, (33), every Theta link) each shown by a harness reference verifier to be exactly one check from acceptance; three proofs per sequence shuffle."
 
 func TestC15_Pair(t *testing.T) {
 	ev := evFor("C15")
